@@ -13,8 +13,11 @@ Codecs: Driver/C09Decl.lean (`<Struct>`, `<Params>`), Driver/C09Stage.lean
 Ops:
   declstrsvalid <Struct>    → `valid=<bool>`                      (`declStrsValid`: F6b)
   paramsstrsvalid <Params>  → `valid=<bool>`                      (`paramsStrsValid`: F6b)
-  stagestrsvalid <Stage>    → `strs=<bool> mb=<bool> raw=<bool>`  (`stageStrsValid`: F6b,
-                                `stageMBValid`: F25, `stageRaw`: the range of the reader)
+  stagestrsvalid <Stage>    → `strs=<bool> mb=<bool> mb32=<bool> raw=<bool>`  (`stageStrsValid`: F6b,
+                                `stageMBValid`: F25, `stageMB32Valid`: F29, `stageRaw`: the range
+                                of the reader)
+  parsestagedecl32 <hex text> → `some <Stage>` | `none`  (`parseStage32`: `mem_gb` / `vmem_gb`
+                                through the float32 rounding of the literal, as the real parser)
 -/
 namespace Driver.C09
 open Driver
@@ -31,7 +34,13 @@ def handleDeclText (op : String) (args : List String) : Option String :=
     let s ← decStage s
     pure ("strs=" ++ boolStr (Martian.FormatStage.stageStrsValid s) ++
       " mb=" ++ boolStr (Martian.FormatStage.stageMBValid s) ++
+      " mb32=" ++ boolStr (Martian.FormatStage.stageMB32Valid s) ++
       " raw=" ++ boolStr (Martian.FormatStage.stageRaw s))
+  | "parsestagedecl32", [t] => do
+    let b ← bytesOfHex t
+    match Martian.FormatStage.parseStage32 b with
+    | some s => pure ("some " ++ encStage s)
+    | none => pure "none"
   | _, _ => none
 
 end Driver.C09
